@@ -8,102 +8,6 @@ From C22 Require Import C22InvSpec C22InvTac C22inv_gen.
 Import ListNotations.
 Local Open Scope R_scope.
 
-Lemma iso3_dss_0 s0 s1 s2 s3 s4 s5 : is_derive (fun x => (iso_ss_3 x s1 s2 s3 s4 s5)) s0 (2 * (s0 - (s0 + s1 + s2) / 3)).
-Proof. unfold iso_ss_3. cutder. Qed.
-Lemma iso3_dj3_0 s0 s1 s2 s3 s4 s5 : is_derive (fun x => (iso_j3_3 x s1 s2 s3 s4 s5)) s0 (iso_b0_3 s0 s1 s2 s3 s4 s5).
-Proof. unfold iso_b0_3, iso_j3_3. cutder. Qed.
-Lemma iso3_db0_0 s0 s1 s2 s3 s4 s5 : is_derive (fun x => (iso_b0_3 x s1 s2 s3 s4 s5)) s0 (iso_h00_3 s0 s1 s2 s3 s4 s5).
-Proof. unfold iso_b0_3, iso_h00_3. cutder. Qed.
-Lemma iso3_db1_0 s0 s1 s2 s3 s4 s5 : is_derive (fun x => (iso_b1_3 x s1 s2 s3 s4 s5)) s0 (iso_h10_3 s0 s1 s2 s3 s4 s5).
-Proof. unfold iso_b1_3, iso_h10_3. cutder. Qed.
-Lemma iso3_db2_0 s0 s1 s2 s3 s4 s5 : is_derive (fun x => (iso_b2_3 x s1 s2 s3 s4 s5)) s0 (iso_h20_3 s0 s1 s2 s3 s4 s5).
-Proof. unfold iso_b2_3, iso_h20_3. cutder. Qed.
-Lemma iso3_db3_0 s0 s1 s2 s3 s4 s5 : is_derive (fun x => (iso_b3_3 x s1 s2 s3 s4 s5)) s0 (iso_h30_3 s0 s1 s2 s3 s4 s5).
-Proof. unfold iso_b3_3, iso_h30_3. cutder. Qed.
-Lemma iso3_db4_0 s0 s1 s2 s3 s4 s5 : is_derive (fun x => (iso_b4_3 x s1 s2 s3 s4 s5)) s0 (iso_h40_3 s0 s1 s2 s3 s4 s5).
-Proof. unfold iso_b4_3, iso_h40_3. cutder. Qed.
-Lemma iso3_db5_0 s0 s1 s2 s3 s4 s5 : is_derive (fun x => (iso_b5_3 x s1 s2 s3 s4 s5)) s0 (iso_h50_3 s0 s1 s2 s3 s4 s5).
-Proof. unfold iso_b5_3, iso_h50_3. cutder. Qed.
-Lemma iso3_dss_1 s0 s1 s2 s3 s4 s5 : is_derive (fun x => (iso_ss_3 s0 x s2 s3 s4 s5)) s1 (2 * (s1 - (s0 + s1 + s2) / 3)).
-Proof. unfold iso_ss_3. cutder. Qed.
-Lemma iso3_dj3_1 s0 s1 s2 s3 s4 s5 : is_derive (fun x => (iso_j3_3 s0 x s2 s3 s4 s5)) s1 (iso_b1_3 s0 s1 s2 s3 s4 s5).
-Proof. unfold iso_b1_3, iso_j3_3. cutder. Qed.
-Lemma iso3_db0_1 s0 s1 s2 s3 s4 s5 : is_derive (fun x => (iso_b0_3 s0 x s2 s3 s4 s5)) s1 (iso_h01_3 s0 s1 s2 s3 s4 s5).
-Proof. unfold iso_b0_3, iso_h01_3. cutder. Qed.
-Lemma iso3_db1_1 s0 s1 s2 s3 s4 s5 : is_derive (fun x => (iso_b1_3 s0 x s2 s3 s4 s5)) s1 (iso_h11_3 s0 s1 s2 s3 s4 s5).
-Proof. unfold iso_b1_3, iso_h11_3. cutder. Qed.
-Lemma iso3_db2_1 s0 s1 s2 s3 s4 s5 : is_derive (fun x => (iso_b2_3 s0 x s2 s3 s4 s5)) s1 (iso_h21_3 s0 s1 s2 s3 s4 s5).
-Proof. unfold iso_b2_3, iso_h21_3. cutder. Qed.
-Lemma iso3_db3_1 s0 s1 s2 s3 s4 s5 : is_derive (fun x => (iso_b3_3 s0 x s2 s3 s4 s5)) s1 (iso_h31_3 s0 s1 s2 s3 s4 s5).
-Proof. unfold iso_b3_3, iso_h31_3. cutder. Qed.
-Lemma iso3_db4_1 s0 s1 s2 s3 s4 s5 : is_derive (fun x => (iso_b4_3 s0 x s2 s3 s4 s5)) s1 (iso_h41_3 s0 s1 s2 s3 s4 s5).
-Proof. unfold iso_b4_3, iso_h41_3. cutder. Qed.
-Lemma iso3_db5_1 s0 s1 s2 s3 s4 s5 : is_derive (fun x => (iso_b5_3 s0 x s2 s3 s4 s5)) s1 (iso_h51_3 s0 s1 s2 s3 s4 s5).
-Proof. unfold iso_b5_3, iso_h51_3. cutder. Qed.
-Lemma iso3_dss_2 s0 s1 s2 s3 s4 s5 : is_derive (fun x => (iso_ss_3 s0 s1 x s3 s4 s5)) s2 (2 * (s2 - (s0 + s1 + s2) / 3)).
-Proof. unfold iso_ss_3. cutder. Qed.
-Lemma iso3_dj3_2 s0 s1 s2 s3 s4 s5 : is_derive (fun x => (iso_j3_3 s0 s1 x s3 s4 s5)) s2 (iso_b2_3 s0 s1 s2 s3 s4 s5).
-Proof. unfold iso_b2_3, iso_j3_3. cutder. Qed.
-Lemma iso3_db0_2 s0 s1 s2 s3 s4 s5 : is_derive (fun x => (iso_b0_3 s0 s1 x s3 s4 s5)) s2 (iso_h02_3 s0 s1 s2 s3 s4 s5).
-Proof. unfold iso_b0_3, iso_h02_3. cutder. Qed.
-Lemma iso3_db1_2 s0 s1 s2 s3 s4 s5 : is_derive (fun x => (iso_b1_3 s0 s1 x s3 s4 s5)) s2 (iso_h12_3 s0 s1 s2 s3 s4 s5).
-Proof. unfold iso_b1_3, iso_h12_3. cutder. Qed.
-Lemma iso3_db2_2 s0 s1 s2 s3 s4 s5 : is_derive (fun x => (iso_b2_3 s0 s1 x s3 s4 s5)) s2 (iso_h22_3 s0 s1 s2 s3 s4 s5).
-Proof. unfold iso_b2_3, iso_h22_3. cutder. Qed.
-Lemma iso3_db3_2 s0 s1 s2 s3 s4 s5 : is_derive (fun x => (iso_b3_3 s0 s1 x s3 s4 s5)) s2 (iso_h32_3 s0 s1 s2 s3 s4 s5).
-Proof. unfold iso_b3_3, iso_h32_3. cutder. Qed.
-Lemma iso3_db4_2 s0 s1 s2 s3 s4 s5 : is_derive (fun x => (iso_b4_3 s0 s1 x s3 s4 s5)) s2 (iso_h42_3 s0 s1 s2 s3 s4 s5).
-Proof. unfold iso_b4_3, iso_h42_3. cutder. Qed.
-Lemma iso3_db5_2 s0 s1 s2 s3 s4 s5 : is_derive (fun x => (iso_b5_3 s0 s1 x s3 s4 s5)) s2 (iso_h52_3 s0 s1 s2 s3 s4 s5).
-Proof. unfold iso_b5_3, iso_h52_3. cutder. Qed.
-Lemma iso3_dss_3 s0 s1 s2 s3 s4 s5 : is_derive (fun x => (iso_ss_3 s0 s1 s2 x s4 s5)) s3 (2 * s3).
-Proof. unfold iso_ss_3. cutder. Qed.
-Lemma iso3_dj3_3 s0 s1 s2 s3 s4 s5 : is_derive (fun x => (iso_j3_3 s0 s1 s2 x s4 s5)) s3 (iso_b3_3 s0 s1 s2 s3 s4 s5).
-Proof. unfold iso_b3_3, iso_j3_3. cutder. Qed.
-Lemma iso3_db0_3 s0 s1 s2 s3 s4 s5 : is_derive (fun x => (iso_b0_3 s0 s1 s2 x s4 s5)) s3 (iso_h03_3 s0 s1 s2 s3 s4 s5).
-Proof. unfold iso_b0_3, iso_h03_3. cutder. Qed.
-Lemma iso3_db1_3 s0 s1 s2 s3 s4 s5 : is_derive (fun x => (iso_b1_3 s0 s1 s2 x s4 s5)) s3 (iso_h13_3 s0 s1 s2 s3 s4 s5).
-Proof. unfold iso_b1_3, iso_h13_3. cutder. Qed.
-Lemma iso3_db2_3 s0 s1 s2 s3 s4 s5 : is_derive (fun x => (iso_b2_3 s0 s1 s2 x s4 s5)) s3 (iso_h23_3 s0 s1 s2 s3 s4 s5).
-Proof. unfold iso_b2_3, iso_h23_3. cutder. Qed.
-Lemma iso3_db3_3 s0 s1 s2 s3 s4 s5 : is_derive (fun x => (iso_b3_3 s0 s1 s2 x s4 s5)) s3 (iso_h33_3 s0 s1 s2 s3 s4 s5).
-Proof. unfold iso_b3_3, iso_h33_3. cutder. Qed.
-Lemma iso3_db4_3 s0 s1 s2 s3 s4 s5 : is_derive (fun x => (iso_b4_3 s0 s1 s2 x s4 s5)) s3 (iso_h43_3 s0 s1 s2 s3 s4 s5).
-Proof. unfold iso_b4_3, iso_h43_3. cutder. Qed.
-Lemma iso3_db5_3 s0 s1 s2 s3 s4 s5 : is_derive (fun x => (iso_b5_3 s0 s1 s2 x s4 s5)) s3 (iso_h53_3 s0 s1 s2 s3 s4 s5).
-Proof. unfold iso_b5_3, iso_h53_3. cutder. Qed.
-Lemma iso3_dss_4 s0 s1 s2 s3 s4 s5 : is_derive (fun x => (iso_ss_3 s0 s1 s2 s3 x s5)) s4 (2 * s4).
-Proof. unfold iso_ss_3. cutder. Qed.
-Lemma iso3_dj3_4 s0 s1 s2 s3 s4 s5 : is_derive (fun x => (iso_j3_3 s0 s1 s2 s3 x s5)) s4 (iso_b4_3 s0 s1 s2 s3 s4 s5).
-Proof. unfold iso_b4_3, iso_j3_3. cutder. Qed.
-Lemma iso3_db0_4 s0 s1 s2 s3 s4 s5 : is_derive (fun x => (iso_b0_3 s0 s1 s2 s3 x s5)) s4 (iso_h04_3 s0 s1 s2 s3 s4 s5).
-Proof. unfold iso_b0_3, iso_h04_3. cutder. Qed.
-Lemma iso3_db1_4 s0 s1 s2 s3 s4 s5 : is_derive (fun x => (iso_b1_3 s0 s1 s2 s3 x s5)) s4 (iso_h14_3 s0 s1 s2 s3 s4 s5).
-Proof. unfold iso_b1_3, iso_h14_3. cutder. Qed.
-Lemma iso3_db2_4 s0 s1 s2 s3 s4 s5 : is_derive (fun x => (iso_b2_3 s0 s1 s2 s3 x s5)) s4 (iso_h24_3 s0 s1 s2 s3 s4 s5).
-Proof. unfold iso_b2_3, iso_h24_3. cutder. Qed.
-Lemma iso3_db3_4 s0 s1 s2 s3 s4 s5 : is_derive (fun x => (iso_b3_3 s0 s1 s2 s3 x s5)) s4 (iso_h34_3 s0 s1 s2 s3 s4 s5).
-Proof. unfold iso_b3_3, iso_h34_3. cutder. Qed.
-Lemma iso3_db4_4 s0 s1 s2 s3 s4 s5 : is_derive (fun x => (iso_b4_3 s0 s1 s2 s3 x s5)) s4 (iso_h44_3 s0 s1 s2 s3 s4 s5).
-Proof. unfold iso_b4_3, iso_h44_3. cutder. Qed.
-Lemma iso3_db5_4 s0 s1 s2 s3 s4 s5 : is_derive (fun x => (iso_b5_3 s0 s1 s2 s3 x s5)) s4 (iso_h54_3 s0 s1 s2 s3 s4 s5).
-Proof. unfold iso_b5_3, iso_h54_3. cutder. Qed.
-Lemma iso3_dss_5 s0 s1 s2 s3 s4 s5 : is_derive (fun x => (iso_ss_3 s0 s1 s2 s3 s4 x)) s5 (2 * s5).
-Proof. unfold iso_ss_3. cutder. Qed.
-Lemma iso3_dj3_5 s0 s1 s2 s3 s4 s5 : is_derive (fun x => (iso_j3_3 s0 s1 s2 s3 s4 x)) s5 (iso_b5_3 s0 s1 s2 s3 s4 s5).
-Proof. unfold iso_b5_3, iso_j3_3. cutder. Qed.
-Lemma iso3_db0_5 s0 s1 s2 s3 s4 s5 : is_derive (fun x => (iso_b0_3 s0 s1 s2 s3 s4 x)) s5 (iso_h05_3 s0 s1 s2 s3 s4 s5).
-Proof. unfold iso_b0_3, iso_h05_3. cutder. Qed.
-Lemma iso3_db1_5 s0 s1 s2 s3 s4 s5 : is_derive (fun x => (iso_b1_3 s0 s1 s2 s3 s4 x)) s5 (iso_h15_3 s0 s1 s2 s3 s4 s5).
-Proof. unfold iso_b1_3, iso_h15_3. cutder. Qed.
-Lemma iso3_db2_5 s0 s1 s2 s3 s4 s5 : is_derive (fun x => (iso_b2_3 s0 s1 s2 s3 s4 x)) s5 (iso_h25_3 s0 s1 s2 s3 s4 s5).
-Proof. unfold iso_b2_3, iso_h25_3. cutder. Qed.
-Lemma iso3_db3_5 s0 s1 s2 s3 s4 s5 : is_derive (fun x => (iso_b3_3 s0 s1 s2 s3 s4 x)) s5 (iso_h35_3 s0 s1 s2 s3 s4 s5).
-Proof. unfold iso_b3_3, iso_h35_3. cutder. Qed.
-Lemma iso3_db4_5 s0 s1 s2 s3 s4 s5 : is_derive (fun x => (iso_b4_3 s0 s1 s2 s3 s4 x)) s5 (iso_h45_3 s0 s1 s2 s3 s4 s5).
-Proof. unfold iso_b4_3, iso_h45_3. cutder. Qed.
-Lemma iso3_db5_5 s0 s1 s2 s3 s4 s5 : is_derive (fun x => (iso_b5_3 s0 s1 s2 s3 s4 x)) s5 (iso_h55_3 s0 s1 s2 s3 s4 s5).
-Proof. unfold iso_b5_3, iso_h55_3. cutder. Qed.
 Lemma ort3_dk2_0 s0 s1 s2 s3 s4 s5 a0 a1 a2 a3 a4 a5 b0 b1 b2 b3 b4 b5 b6 b7 b8 b9 b10 : is_derive (fun x => (ort_k2_3 x s1 s2 s3 s4 s5 a0 a1 a2 a3 a4 a5 b0 b1 b2 b3 b4 b5 b6 b7 b8 b9 b10)) s0 (ort_p0_3 s0 s1 s2 s3 s4 s5 a0 a1 a2 a3 a4 a5 b0 b1 b2 b3 b4 b5 b6 b7 b8 b9 b10).
 Proof. unfold ort_k2_3, ort_p0_3. cutder. Qed.
 Lemma ort3_dk3_0 s0 s1 s2 s3 s4 s5 a0 a1 a2 a3 a4 a5 b0 b1 b2 b3 b4 b5 b6 b7 b8 b9 b10 : is_derive (fun x => (ort_k3_3 x s1 s2 s3 s4 s5 a0 a1 a2 a3 a4 a5 b0 b1 b2 b3 b4 b5 b6 b7 b8 b9 b10)) s0 (ort_r0_3 s0 s1 s2 s3 s4 s5 a0 a1 a2 a3 a4 a5 b0 b1 b2 b3 b4 b5 b6 b7 b8 b9 b10).
